@@ -274,6 +274,8 @@ class Env(object):
         self.old = old_p8 if fmt == 'p8' else old_png
         if entry == 'to_file':
             self.dest = os.path.join(self.d, 'cart' + ext)
+            self.labelsrc = os.path.join(self.d, 'labelsrc.png')
+            open(self.labelsrc, 'wb').write(c13.ref_png(carts.region_fills(0, 1), b'-- l\n', c13.label_rows()))
         elif entry in CLI_REWRITERS:
             self.src = os.path.join(self.d, 'in' + ext)
             src_bytes = c13.ref_p8(self.fills, CODE, label=carts.rot_region(0x2000, 3)) if fmt == 'p8' else \
@@ -332,7 +334,11 @@ class Env(object):
                     g.label._c11_is_label = True
                 wcls = getattr(m['lua'], WRITERS[writer])
                 wargs = {'indentwidth': 2} if writer == 'format' else None
-                p8file.to_file(g, self.dest, lua_writer_cls=None if writer == 'echo' else wcls, lua_writer_args=wargs)
+                kw = {}
+                if dest == 'present':
+                    # the label picture named explicitly, as another file (the library-only argument of to_file)
+                    kw['label_fname'] = self.labelsrc
+                p8file.to_file(g, self.dest, lua_writer_cls=None if writer == 'echo' else wcls, lua_writer_args=wargs, **kw)
                 return False, None
             if entry in CLI_REWRITERS:
                 args = cli_flag + [entry] + (['--overwrite'] if dest == 'overwrite' else []) + [self.src]
